@@ -20,7 +20,7 @@ import vcommon as V
 
 ID = "C07"
 
-DESIGN_QUICK = ["MCDesignA"]
+DESIGN_QUICK = ["MCDesignA", "MCDesignB"]
 DESIGN_THOROUGH = ["MCDesignA", "MCDesignB", "MCDesignE", "MCDesignD", "MCDesignC"]
 MUTANTS = [("MCMutNoTimeout", "Deadlock"), ("MCMutReleaseEarly", "Serializable"),
            ("MCMutNoRestore", "QuiescentAgree"), ("MCMutCommitLeak", "NoLeak")]
@@ -162,6 +162,9 @@ def concretize(g, walk, cid, fam, na, lockof, rng, salt):
                 v = 1000 * act["a"] + nw[act["a"]]
             act["v"] = v
         steps.append(act)
+        # now and then GetState() is called while a section holds the variable (it has to wait, and to show committed values only)
+        if act["t"] == "acc" and act["k"] == "w" and rng.random() < 0.25:
+            steps.append({"t": "obsa", "m": lockof[act["c"] - 1]})
     return {"id": cid, "mode": "gated", "fam": fam, "na": na, "lockof": lockof, "kinds": kinds, "init": init,
             "timeout_ms": timeout, "steps": steps, "probes": 3}
 
@@ -211,7 +214,7 @@ def run(chk):
                           timeout=3000 if kind == "design" else 900, deadlock=True), d
 
     results = {}
-    with concurrent.futures.ThreadPoolExecutor(max_workers=6) as ex:
+    with concurrent.futures.ThreadPoolExecutor(max_workers=len(jobs)) as ex:
         for job, res, d in ex.map(tlc_job, jobs):
             results[job] = (res, d)
     all_ok = True
